@@ -282,6 +282,7 @@ def run(tier, seed=0, shard=(0, 1)):
                   'angles': 'Rx / Rz / CRz with 9 tket angles in [-3.3, 4.25] half-turns imported, 5 discopy phases in [-1.65, 1.85] '
                             'exported and re-imported, the control in superposition before and after',
                   'controlled': 'Controlled(g), its dagger and double dagger for g in X Y Z H S T S† T†, control and target in superposition, three read-outs',
+                  'chains': '5 selections with two or three adjacent post-selected qubits next to measured ones, then Bits(0) at every offset',
                   'late': '12 circuits with NOT / Copy / XOR / Match recorded before an overriding Measure, a fresh Bits(0) or nothing',
                   'simulator': 'rtc/tksim.py exact branching state-vector simulation'})
     idx = 0
@@ -393,6 +394,19 @@ def run(tier, seed=0, shard=(0, 1)):
             if idx % shard[1] != shard[0]:
                 continue
             check(rep, pre >> sel >> tail)
+    # several post-selections next to each other while a measured bit is live, then a fresh bit: the registers of the
+    # post-selected bits are renamed in a chain (i -> i + 1 -> i + 2), every one of them must keep its own value
+    pre4 = Ket(0, 0, 0, 0) >> gates.H @ gates.X @ Rx(0.3) @ gates.H >> gates.CX @ Id(2) >> Id(1) @ gates.CX @ Id(1)
+    for sel in (Measure() @ Bra(1) @ Bra(0) @ Measure(), Measure() @ Bra(0) @ Bra(1) @ Measure(),
+                Measure() @ Bra(1) @ Bra(0) @ Discard(), Bra(1) @ Measure() @ Bra(0) @ Bra(1),
+                Measure() @ Bra(1) @ Bra(1) @ Bra(0)):
+        m_ = pre4 >> sel
+        nb_ = m_.cod.count(bit)
+        for pos in range(nb_ + 1):
+            idx += 1
+            if idx % shard[1] != shard[0]:
+                continue
+            check(rep, m_ >> Id(bit ** pos) @ Bits(0) @ Id(bit ** (nb_ - pos)))
     # scalars of both kinds at both ends: amplitudes (recorded as their squared modulus) and weights (recorded as is,
     # e.g. the negative weights of parameter-shift gradients)
     for sc in (scalar(0.5, is_mixed=True), scalar(-1, is_mixed=True), scalar(2.5, is_mixed=True), scalar(0.5j), scalar(-2)):
